@@ -128,6 +128,86 @@ print("R done")
 '''
 
 
+EDIT_OPS = [("copytranslate", "%(pi)s_copytranslate(20,0.5,2)"), ("copyrotate", "%(pi)s_copyrotate(-50,-50,7,2)"),
+            ("mirror", "%(pi)s_mirror(-5,0,-5,1)"), ("movetranslate", "%(pi)s_movetranslate(20,0.25)"),
+            ("moverotate", "%(pi)s_moverotate(-50,-50,7)"), ("scale", "%(pi)s_scale(-50,-50,1.5)"),
+            ("deleteselected", "%(pi)s_deleteselected()")]
+EDIT_MODES = ["nodes", "segments", "arcsegments", "blocks", "group"]
+
+
+def edit_matrix_script(kind, op, mode, n, first_only):
+    """a fresh document with n segments, n arcs, n labels and 4n points — n a power of two, so that every list is exactly at the
+    capacity its vector reached by doubling: the first push_back of a copy command reallocates the list the command iterates —
+    then one edit command on everything (or only the first entity) of one edit mode"""
+    pi = femmrun.PRE[kind][0]
+    doc = {"fem": 0, "fee": 1, "feh": 2}[kind]
+    L = ["newdocument(%d)" % doc]
+    for i in range(n):
+        y = 3.0 * i
+        L += ["%s_addnode(0,%g)" % (pi, y), "%s_addnode(1,%g)" % (pi, y), "%s_addsegment(0,%g,1,%g)" % (pi, y, y),
+              "%s_addnode(3,%g)" % (pi, y), "%s_addnode(4,%g)" % (pi, y), "%s_addarc(4,%g,3,%g,180,10)" % (pi, y, y),
+              "%s_addblocklabel(6,%g)" % (pi, y)]
+    L.append('%s_seteditmode("%s")' % (pi, mode))
+    rows = [0] if first_only else list(range(n))
+    if mode == "group":
+        L.append("%s_selectgroup(0)" % pi)
+    for i in rows:
+        y = 3.0 * i
+        if mode == "nodes":
+            L += ["%s_selectnode(0,%g)" % (pi, y), "%s_selectnode(3,%g)" % (pi, y)]
+        elif mode == "segments":
+            L.append("%s_selectsegment(0.5,%g)" % (pi, y))
+        elif mode == "arcsegments":
+            L.append("%s_selectarcsegment(3.5,%g)" % (pi, y + 0.5))
+        elif mode == "blocks":
+            L.append("%s_selectlabel(6,%g)" % (pi, y))
+    L.append(dict(EDIT_OPS)[op] % dict(pi=pi))
+    L.append("%s_clearselected()" % pi)
+    return L
+
+
+def edit_matrix(ctx, san, kinds):
+    """every copy / move / mirror / rotate / scale / delete command in every edit mode on lists that are exactly at capacity
+    (1, 2, 4, 8 entities per kind), everything or only the first entity selected, on the sanitizer build; one femmcli process per
+    (physics, command): the sanitizer stops at the first report"""
+    runs = 0
+    for kind in kinds:
+        for op, _ in EDIT_OPS:
+            L = []
+            for mode in EDIT_MODES:
+                for n in (1, 2, 4, 8):
+                    for first_only in ((False, True) if n > 1 else (False,)):
+                        L += edit_matrix_script(kind, op, mode, n, first_only)
+            L.append('print("R done")')
+            wd = os.path.join(ctx.work, "editm-%s-%s" % (kind, op))
+            os.makedirs(wd, exist_ok=True)
+            lua = os.path.join(wd, "edit.lua")
+            open(lua, "w").write("\n".join(L) + "\n")
+            rc, rep, tail = run_tool(san, "femmcli", ["--lua-script=" + lua], wd, 0x5a)
+            runs += 1
+            if rep or rc != 0:
+                # find the first (mode, n, selection) block that fails on its own, for a short replay
+                small = None
+                for mode in EDIT_MODES:
+                    for n in (1, 2, 4, 8):
+                        for first_only in ((False, True) if n > 1 else (False,)):
+                            S = edit_matrix_script(kind, op, mode, n, first_only)
+                            open(lua, "w").write("\n".join(S) + "\n")
+                            rc2, rep2, tail2 = run_tool(san, "femmcli", ["--lua-script=" + lua], wd, 0x5a)
+                            if rep2 or rc2 != 0:
+                                small = (S, rep2 or tail2, mode, n, first_only)
+                                break
+                        if small:
+                            break
+                    if small:
+                        break
+                S, r2, mode, n, fo = small if small else (L, rep or tail, "?", 0, False)
+                ctx.fail("memory safety: %s in femmcli for %s in edit mode %s on a drawing with %d entities of each kind (%s selected):\n%s"
+                         % ("sanitizer report" if (rep or (small and small[1])) else "abnormal exit", op, mode, n,
+                            "the first" if fo else "all", (r2 or "")[:1800]), script=S, kind=kind, signature="edit-matrix:%s:%s" % (kind, op))
+    return runs
+
+
 def edit_replay(ctx, san, k, kind, ncopy):
     pi = femmrun.PRE[kind][0]
     wd = os.path.join(ctx.work, "edit%d" % k)
@@ -324,6 +404,9 @@ def correspond(ctx):
         feats["edit-script"] = feats.get("edit-script", 0) + 1
         if msg:
             ctx.fail("memory safety: " + msg[:2500], script=txt.split("\n"), kind=kind, signature="edit-script:" + kind)
+    nm = edit_matrix(ctx, san, ["fem"] if ctx.quick() else ["fem", "fee", "feh"])
+    n += nm
+    feats["edit-matrix-runs"] = nm
     ns = sample_inputs(ctx, san)
     n += ns
     feats["repository-sample"] = ns
